@@ -111,6 +111,11 @@ def GoItem.Wf : GoItem → Prop
   | .movetime v => I64Range v
   | .movestogo n => U64Range n | .depth n => U64Range n | .nodes n => U64Range n | .mate n => U64Range n
 
+instance (v : Int) : Decidable (I64Range v) := by unfold I64Range; infer_instance
+instance (n : Nat) : Decidable (U64Range n) := by unfold U64Range; infer_instance
+instance (it : GoItem) : Decidable it.Wf := by
+  cases it <;> unfold GoItem.Wf <;> infer_instance
+
 /-- a parameter list: any order, every keyword at most once, values in range -/
 structure GoItemsOk (items : List GoItem) : Prop where
   distinct : (items.map GoItem.key).Nodup
